@@ -177,7 +177,7 @@ def generate(ctx, d, workers):
 
     # sampled large space: several simulations side by side, seeds derived from VERIF_SEED
     depth = 260
-    nproc, num = (4, 110) if q else (8, 700)
+    nproc, num = (4, 250) if q else (8, 1600)
     set_consts(os.path.join(d, "Sim_gen.cfg"), Depth=depth)
 
     def sim(k):
@@ -297,7 +297,8 @@ def selftest_diff(ctx, cases, strict=True):
     toolchain gets the originals: the comparison must flag every case whose reference result is not a panic, and none of the
     untouched control programs."""
     rnd = random.Random(ctx.seed * 13 + 5)
-    sk = [c for c in cases if c["fam"] == "skel"]
+    # (the deferred variants are left out: a recovered panic makes the result independent of the marker)
+    sk = [c for c in cases if c["fam"] == "skel" and c["id"].startswith("k")]
     rnd.shuffle(sk)
     bad = [dict(copy.deepcopy(c), alter=True) for c in sk[:40]]
     good = [copy.deepcopy(c) for c in sk[40:60]]
